@@ -9,6 +9,14 @@ CHECKS = {
   text="Stateful property-based testing: generated histories of topology edits (valid and invalid arguments) are applied to the real Bondmachine and to a reference model of named bonds; well-formedness and bond-set equality are checked after every edit. Held on everything generated; not a proof.",
   note="Trusted: the reference model in harness/c10 (written from the statement and the documented renumbering), rapid's generators. Negative ids are outside the domain.",
   technique="property-based testing (rapid), stateful/model-based generation of edit histories against a reference model"),
+ "C04": dict(
+  text="Property-based testing of the handshake in the simulator world: generated producer/consumer programs (strictly increasing counter, nop padding, fan-out 1..3, fixed per-opcode delays, environment stalls, back-to-back writes) run on bondmachine.VM; after every tick each consumer's captured sequence must be a prefix of the offered sequence and the producer must not move past a write a consumer has not captured. Two genuine defects (D4, D5) are recorded as known findings, recognised by precondition monitors and excluded so search continues behind them. The generated-hardware world is added once /verif's Verilog interpreter is in place.",
+  note="Trusted: observation at the processors (PC leaving i2rw/r2owa, register values), the precondition monitors that classify D4/D5. Hardware world not yet covered by this check.",
+  technique="property-based testing (rapid) with a history invariant checked every tick; known-finding monitors"),
+ "C08": dict(
+  text="Property-based testing of the number library: (a) strings generated from every notation's regular language (plus mutations and a corpus) are run through every matcher: at most one may accept; (b) export/import round-trip on bits, type and width for every supported type and boundary-weighted values, ExportBinaryNBits/ExportVerilogBinary width laws; (c) sized literals import to the stated width or are rejected. Native fuzzing of ImportString in the thorough tier. Found D2 and the sized-hex storage defect (both fixed) and four round-trip defects recorded as known findings.",
+  note="Trusted: the deterministic matcher scan in harness/c08 (ImportString's map walk is bypassed), bit-level comparison. Disjointness of the notations is searched, not proved.",
+  technique="property-based testing (rapid): language-directed string generation with cross-matching, round-trip oracle; native go fuzz"),
  "C09": dict(
   text="Property-based testing over generated multi-processor machines, stimuli, seeded schedule perturbation (verif-tagged yield hook, GOMAXPROCS 1..16) and concurrency plans (copies of the same machine sharing one Bondmachine, different machines, concurrent SinglePipelineSimulate): the per-tick digest of the complete VM state must equal the solo unperturbed run; the same binary runs under the Go race detector (a report is a violation). Exploration of schedules, not exhaustive. Found D7 and D11 (both fixed in /repo).",
   note="Trusted: digest covers processors' PC/registers/memory/ports/flags/deferred and extra state and all bond registers; the race detector; schedules the hook and GOMAXPROCS cannot provoke are not explored.",
@@ -27,11 +35,9 @@ PENDING = {
  "C01": "check under construction in this session (planned: differential PBT of emitted Verilog under /verif's interpreter vs the Go ISA simulator, DESIGN.md §3 C01)",
  "C02": "check under construction (planned: stream-equality differential + netlist check, DESIGN.md §3 C02)",
  "C03": "check under construction (planned: assembler/disassembler round-trip PBT)",
- "C04": "check under construction (planned: history invariant over generated producer/consumer programs)",
  "C05": "check under construction (planned: reference interpreter of BASM source vs simulation)",
  "C06": "check under construction (planned: dataflow evaluator vs every partition)",
  "C07": "check under construction (planned: repeated-run byte equality)",
- "C08": "check under construction (planned: matcher cross-matching + export/import round-trip)",
  "C11": "check under construction (planned: save/load round-trip with reflection walk)",
  "C12": "check under construction (planned: Go-subset evaluator vs compiled machine, termination under forced schedules)",
  "C13": "check under construction (planned: LIFO/FIFO HDL vs abstract sequence under generated agents)",
